@@ -1,6 +1,6 @@
 (* C16 — WASI file operations behave like a POSIX-style reference model.
    Only statements, `exact <lemma>` and Print Assumptions live here. *)
-From Verif Require Import Lib.GoInt Sys.DescTable Proofs.DescTableP.
+From Verif Require Import Lib.GoInt Gen.GenC16Wasip1 Sys.DescTable Proofs.DescTableP Sys.Dirent Proofs.DirentP.
 Open Scope Z_scope.
 
 (* ---- A. descriptor table (internal/descriptor/table.go) ----
@@ -29,3 +29,45 @@ Theorem C16_table_panic_only_when_full : forall a v a', step_abs a (Insert v) = 
   forall j, 0 <= j < 2 ^ 31 -> alookup a j <> None.
 Proof. exact abs_panic_full. Qed.
 Print Assumptions C16_table_panic_only_when_full.
+
+(* ---- B. fd_readdir (fdReaddirFn / maxDirents / writeDirents over DirentCache.Read) ----
+   Hypotheses: the directory does not change while it is read, has fewer than 2^62 entries and no
+   name longer than largestDirent - 24 bytes (beyond which the Go code panics on purpose).
+   [listing] is ".", "..", entries, each paired with d_next = index + 1. *)
+
+(* Safety. For every directory and EVERY sequence of calls in which the guest either continues from
+   the d_next of the last complete entry (Cont) or rewinds with cookie 0 (Rewind), with any buffer
+   lengths >= 24: no call fails; the complete entries received since the last rewind are a prefix of
+   the listing — nothing skipped, nothing duplicated, every d_next = index + 1 (the cookie the guest
+   holds equals the number of entries it has); if the last call held back an entry that did not fit
+   it said so with bufused = buf_len; and bufused < buf_len only ever means the whole listing was seen. *)
+Theorem C16_readdir_prefix : forall dotIno dir cmds,
+  Dirent.len dir < 2 ^ 62 -> Forall name_ok dir -> Forall cmd_ok cmds ->
+  let s := client_run dotIno dir cmds in
+  k_failed s = false /\
+  k_acc s = firstn (length (k_acc s)) (listing dotIno dir) /\ k_cookie s = Dirent.len (k_acc s) /\
+  (k_last_unfit s = true -> k_last_used s = k_last_len s) /\
+  (k_last_used s < k_last_len s -> k_acc s = listing dotIno dir).
+Proof. exact readdir_prefix. Qed.
+Print Assumptions C16_readdir_prefix.
+
+(* Liveness. When every buffer can hold the longest name, the wasi-libc style loop (call, collect the
+   complete entries, stop when bufused < buf_len) ends within [entries + 3] calls with the whole listing. *)
+Theorem C16_readdir_terminates : forall dotIno dir bufs,
+  Dirent.len dir < 2 ^ 62 -> Forall name_ok dir ->
+  (forall i, DirentSize + max_name dir <= bufs i < 2 ^ 32) ->
+  client_loop dotIno dir (length dir + 3) bufs 0 client_init = Done (listing dotIno dir).
+Proof. exact readdir_terminates. Qed.
+Print Assumptions C16_readdir_terminates.
+
+(* With buffers too small for some name the loop may make no progress (Example ex_headers_only),
+   but it never fails and never holds anything but a prefix. *)
+Theorem C16_readdir_loop_safe : forall dotIno dir bufs fuel,
+  Dirent.len dir < 2 ^ 62 -> Forall name_ok dir -> (forall i, 24 <= bufs i < 2 ^ 32) ->
+  match client_loop dotIno dir fuel bufs 0 client_init with
+  | Failed => False
+  | More acc => acc = firstn (length acc) (listing dotIno dir)
+  | Done acc => acc = listing dotIno dir
+  end.
+Proof. exact readdir_loop_safe. Qed.
+Print Assumptions C16_readdir_loop_safe.
